@@ -267,9 +267,16 @@ def check_m2(ctx) -> None:
         accum = {st.target.id for lp in ast.walk(w.node) if isinstance(lp, ast.For) for st in ast.walk(lp)
                  if isinstance(st, ast.AugAssign) and isinstance(st.op, ast.Add) and isinstance(st.target, ast.Name)
                  and not any(st is x for x in ast.walk(lock_with))}
-        ctx.check(row is not None and row in accum, 'M2', 'work_package/append-whole-row',
+        aug_any = {st.target.id for st in ast.walk(w.node) if isinstance(st, ast.AugAssign) and isinstance(st.op, ast.Add)
+                   and isinstance(st.target, ast.Name) and not any(st is x for x in ast.walk(lock_with))}
+        joined = {st.targets[0].id for st in ast.walk(w.node) if isinstance(st, ast.Assign) and isinstance(st.targets[0], ast.Name)
+                  and any(isinstance(x, (ast.GeneratorExp, ast.ListComp)) for x in ast.walk(st.value))
+                  and any(isinstance(x, ast.Attribute) and x.attr == 'join' for x in ast.walk(st.value))}
+        if row is not None and row in aug_any and row not in accum and row not in joined:
+            raise AnalysisError(f'work_package: `{row}` is appended to but neither in a loop over the outputs nor from a join over them (idiom changed)')
+        ctx.check(row is not None and (row in accum or (row in joined and row in aug_any)), 'M2', 'work_package/append-whole-row',
                   f'{w.module.rel}:{c.lineno}', f'the append writes `{norm(c.args[0]) if c.args else ""}`, not the complete row '
-                  f'(the accumulated row is {sorted(accum)})')
+                  f'(the accumulated row is {sorted(accum | joined)})')
     rows = {c.args[0].id for c in writes if len(c.args) == 1 and isinstance(c.args[0], ast.Name)}
     row = next(iter(rows)) if len(rows) == 1 else None
     # the row ends with a newline: last top-level update of the row before the lock
